@@ -45,6 +45,11 @@ CHECKS = {
                   "Tie: 0-4 models of equal or different shape, atoms differing in one field, every validated field at / inside / outside both ends; diagnostics compared in order with the model; oracle = independent transcription of the documented rules.",
              note="Ranges are in units of 1e-6 on decimal-exact values; the relation 'fits its column iff the C03 field round trip is the identity' is part of C03.",
              technique="Lean 4 theorems (loop = zip specification, nil-iff-in-range) + differential correspondence", ref="DESIGN §7 C18"),
+ 'C17': dict(text="Theorems, decided by the kernel (decide +kernel) over the whole finite domain on data REGENERATED from src/reference/*.txt on every run: table lengths 230; for every i in 1..230 from_index(i), new(hm i), new(hall i) give group i; indices 0 and 231 are refused; Z = number of operators with the identity first; "
+                  "for every group the operators are pairwise distinct, have rotation entries -1/0/1, determinant +-1, translations in twelfths, and are closed under composition modulo whole-cell translations (230 per-group kernel checks, 284 089 products); bridging lemmas relate the residue arithmetic to integer matrices. "
+                  "Tie: exhaustive over indices 0..=231 and every table symbol: from_index, index, both symbols, z, transformations (re-encoded from the f64 matrices), Symmetry::new; oracle additionally checks closure in integer arithmetic, transformations_absolute for three cells, and the CRYST1 / mmCIF round trip of every group at every writer level.",
+             note="Translator trusted for: parsing the three literal arrays, mapping each float to the nearest twelfth / integer (refuses when further than 1e-7 / 1e-9). CRYST1 and mmCIF round trips are decided by the tie and oracle only (writer/reader models belong to C03/C04). Open finding: 10 groups whose symbols exceed the 11-column CRYST1 field.",
+             technique="Lean 4 decide +kernel over regenerated tables (translator) + exhaustive differential correspondence", ref="DESIGN §7 C17"),
 }
 NOT_APPLICABLE = {}
 ALL = ['C%02d' % i for i in range(1, 19)]
